@@ -22,7 +22,8 @@ class UseSetLiteral(SimpleCodemod, NameResolutionMixin):
         match original_node.func:
             case cst.Name("set"):
                 if self.is_builtin_function(original_node):
-                    match original_node.args:
+                    # the elements of the updated node: a nested `set([...])` has already been rewritten there
+                    match updated_node.args:
                         case [cst.Arg(value=cst.List(elements=elements))]:
                             self.report_change(original_node)
 
